@@ -18,6 +18,7 @@ from .. import strategies as S
 from ..common import cedge, permuted
 from ..engine import Clause, HarnessError, Violation, require
 from ..oracles import projcent as P
+from ..common import with_history  # noqa: E402
 
 # |observed - expected| <= TOL_NX for values networkx computes on two graphs that are
 # isomorphic but enumerate their vertices in different orders: betweenness accumulates
@@ -227,6 +228,7 @@ def temporal_cases(draw, tier, kinds=("ints", "strs")):
             "build": draw(st.sampled_from(["ctor", "ctor-pairs", "add_edge"]))}
 
 
+@with_history
 def build_temporal(tc, relabel=None):
     from hypergraphx import TemporalHypergraph
     f = (lambda x: x) if relabel is None else (lambda x: relabel[x])
@@ -457,6 +459,7 @@ def uniform_connected(draw, tier):
             "dropped": len(raw) - len(kept)}
 
 
+@with_history
 def build_uniform(uc, perm=None):
     from hypergraphx import Hypergraph
     f = (lambda x: x) if perm is None else (lambda x: perm[x])
